@@ -1761,7 +1761,10 @@ fn verify_nsec(
     // For a no data response with a directly matching NSEC record, we just need to verify the NSEC
     // type set does not contain the query type or CNAME.
     if let Some((_, nsec_data)) = nsecs.iter().find(|(name, _)| &query.name == *name) {
-        return if nsec_data.type_set().contains(query.query_type)
+        // RFC 4035 section 5.4: the NSEC and RRSIG RRsets exist at the owner of an NSEC record
+        // whatever its bitmap says.
+        return if matches!(query.query_type, RecordType::NSEC | RecordType::RRSIG)
+            || nsec_data.type_set().contains(query.query_type)
             || nsec_data.type_set().contains(RecordType::CNAME)
         {
             nsec1_yield(Proof::Bogus, "direct match, record type should be present")
@@ -1912,6 +1915,7 @@ fn verify_nsec(
             && response_code == ResponseCode::NoError
             && nsecs.iter().any(|(name, nsec_data)| {
                 name == &&wildcard_name
+                    && !matches!(query.query_type, RecordType::NSEC | RecordType::RRSIG)
                     && (!is_ancestor_delegation(nsec_data) || query.query_type == RecordType::DS)
                     && !nsec_data.type_set().contains(query.query_type)
                     && !nsec_data.type_set().contains(RecordType::CNAME)
